@@ -260,7 +260,7 @@ def run(ctx):
 
     scns = []
     forced = [("length", 0), ("chunked", 0), ("close", 0), ("nobody", 0), ("length", 1), ("chunked", 2)]
-    nstreams = ctx.pick(12, 250)
+    nstreams = ctx.pick(12, 150)
     for si in range(nstreams):
         force = forced[si] if si < len(forced) else None
         head = (ctx.rng.random() < 0.2) if force is None else False
